@@ -97,6 +97,24 @@ def listRec (s : St Float) (t : Int) : Rec :=
     |>.addF "atkpct" atkpct |>.addF "reduce" (propTotal (baseOf t) l 90)
     |>.addF "atk" (if out < 0 then 0 else out) |>.addF "cc" (propTotal (baseOf t) l 17)
 
+/-- oracle input of the model: for a random dispel, which candidates the run's shuffle put first —
+read off the implementation's attached list after the operation (the candidates that are gone) -/
+def withShuffle (d : DSt) (op : Rec) (obs : List Rec) : DSt :=
+  if op.name == "dispel" && op.nat "order" == 3 then
+    let t := op.int "t"
+    let l := d.st.targets t
+    let cand := dispelCand d.cat l (op.nat "status")
+    match obs.find? (fun r => r.name == "list" && r.int "t" == t) with
+    | none => d
+    | some lr =>
+      let after := lr.ints "uids"
+      let gone := (List.range cand.length).filter fun p =>
+        match l[cand.getD p 0]? with
+        | some i => !after.contains (Int.ofNat i.uid)
+        | none => false
+      { d with st := { d.st with shuffle := gone } }
+  else d
+
 def stepRec (d : DSt) (r : Rec) : DSt × List Rec × List String :=
   if r.name == "cat" then ({ d with cat := d.cat ++ [cfgOfRec r] }, [], [])
   else if r.name == "mutsnap" then (d, [1, 2, 3].map (listRec d.st ·), ["mutsnap"])
